@@ -191,7 +191,7 @@ class C08(Check):
             st.sampled_from(['equal', 'equal', 'different', 'null', 'type-confused', 'bool', 'float']),
             st.sampled_from(['result', 'result-null', 'error', 'error-typed', 'not-response', 'array', 'scalar', 'both', 'result-and-null-error', 'error-without-message']),
         )
-        return st.one_of(batch, batch, single)
+        return jg.weighted(batch, batch, single)
 
     def corpus(self):
         return [
